@@ -37,6 +37,90 @@ Proof.
   - intros E. specialize (IH E). lia.
 Qed.
 
+(* ---- the questions the rebuild keeps -------------------------------------- *)
+
+Lemma qs_len_cons q t : qs_len (q :: t) = len (wire_q q) + qs_len t.
+Proof. unfold qs_len. cbn [map concat]. apply len_app. Qed.
+
+Lemma qs_len_nil : qs_len [] = 0. Proof. reflexivity. Qed.
+
+(* push_questions without its error exit: the longest prefix whose pushes all
+   stay under the limit *)
+Fixpoint kept (lim : option N) (pos : N) (qs : list question) : list question :=
+  match qs with
+  | [] => []
+  | q :: t =>
+      let n := pos + len (wire_q q) in
+      if match lim with Some l => limit_hit l n | None => false end then []
+      else q :: kept lim n t
+  end.
+
+Lemma push_questions_ok lim qs : forall pos, pos + qs_len qs <= 65535 ->
+  push_questions lim pos qs = Ok (kept lim pos qs).
+Proof.
+  induction qs as [|q t IH]; intros pos H; [reflexivity|].
+  rewrite qs_len_cons in H. cbn [push_questions kept]. cbv zeta.
+  destruct (N.ltb_spec 65535 (pos + len (wire_q q))); [lia|].
+  destruct (match lim with Some l => limit_hit l (pos + len (wire_q q)) | None => false end); [reflexivity|].
+  rewrite IH by lia. reflexivity.
+Qed.
+
+Lemma kept_none pos qs : kept None pos qs = qs.
+Proof. revert pos; induction qs as [|q t IH]; intros pos; [reflexivity|]. cbn [kept]. rewrite IH. reflexivity. Qed.
+
+Lemma kept_prefix lim qs : forall pos, exists rest, qs = kept lim pos qs ++ rest.
+Proof.
+  induction qs as [|q t IH]; intros pos; [exists []; reflexivity|]. cbn [kept]. cbv zeta.
+  destruct (match lim with Some l => limit_hit l _ | None => false end).
+  - exists (q :: t). reflexivity.
+  - destruct (IH (pos + len (wire_q q))) as (rest & E). exists rest. cbn [app]. rewrite <- E. reflexivity.
+Qed.
+
+Lemma qs_len_app a b : qs_len (a ++ b) = qs_len a + qs_len b.
+Proof. unfold qs_len. rewrite map_app, concat_app. apply len_app. Qed.
+
+Lemma kept_len lim pos qs : qs_len (kept lim pos qs) <= qs_len qs.
+Proof. destruct (kept_prefix lim qs pos) as (rest & E). rewrite E at 2. rewrite qs_len_app. lia. Qed.
+
+Lemma kept_forall (P : question -> Prop) lim pos qs : Forall P qs -> Forall P (kept lim pos qs).
+Proof.
+  intros H. destruct (kept_prefix lim qs pos) as (rest & E). rewrite E in H.
+  apply Forall_app in H. tauto.
+Qed.
+
+Lemma kept_cnt lim pos qs : cnt (kept lim pos qs) <= cnt qs.
+Proof.
+  destruct (kept_prefix lim qs pos) as (rest & E). unfold cnt. rewrite E at 2. rewrite app_length. lia.
+Qed.
+
+(* under the limit max + 1 the kept questions end at or below max *)
+Lemma kept_fits max qs : forall pos, pos <= max -> pos + qs_len (kept (Some (max + 1)) pos qs) <= max.
+Proof.
+  induction qs as [|q t IH]; intros pos H; [cbn [kept]; rewrite qs_len_nil; lia|].
+  cbn [kept]. cbv zeta. unfold limit_hit. cbv [push_limit_cmp_is_ge].
+  destruct (N.leb_spec (max + 1) (pos + len (wire_q q))); [rewrite qs_len_nil; lia|].
+  rewrite qs_len_cons. specialize (IH (pos + len (wire_q q))). lia.
+Qed.
+
+Lemma kept_all max qs : forall pos, pos + qs_len qs <= max -> kept (Some (max + 1)) pos qs = qs.
+Proof.
+  induction qs as [|q t IH]; intros pos H; [reflexivity|]. rewrite qs_len_cons in H.
+  cbn [kept]. cbv zeta. unfold limit_hit. cbv [push_limit_cmp_is_ge].
+  destruct (N.leb_spec (max + 1) (pos + len (wire_q q))); [lia|]. rewrite IH by lia. reflexivity.
+Qed.
+
+Definition qlim (fq : bool) (max : N) : option N := if fq then Some (max + 1) else None.
+Definition kept_qs (fq : bool) (max : N) (qs : list question) : list question := kept (qlim fq max) 12 qs.
+
+Lemma kept_qs_unlimited max qs : kept_qs false max qs = qs.
+Proof. apply kept_none. Qed.
+
+Lemma kept_qs_all fq max qs : 12 + qs_len qs <= max -> kept_qs fq max qs = qs.
+Proof. intros H. destruct fq; [apply kept_all; exact H|apply kept_none]. Qed.
+
+Lemma kept_qs_fits max qs : 12 <= max -> 12 + qs_len (kept_qs true max qs) <= max.
+Proof. intros H. apply kept_fits. exact H. Qed.
+
 (* ---- the truncated form ---------------------------------------------------- *)
 
 Lemma min_opt_len o : opt_len (min_opt o) = 11.
@@ -46,20 +130,21 @@ Lemma opt_len_ge o : 11 <= opt_len o.
 Proof. rewrite opt_len_spec. lia. Qed.
 
 (* what is left of the additional section, three ways: the response's OPT when
-   header + questions + OPT fit the limit, else the OPT without options when
-   that fits, else nothing *)
-Definition trunc_ar (max : N) (m : msg) : list rr :=
-  match first_opt (m_ar m) with
+   header + kept questions + OPT fit the limit, else the OPT without options
+   when that fits, else nothing *)
+Definition trunc_ar (max : N) (qs : list question) (ar : list rr) : list rr :=
+  match first_opt ar with
   | None => []
   | Some o =>
-      if 12 + qs_len (m_qs m) + opt_len o <=? max then [RROpt o]
-      else if 12 + qs_len (m_qs m) + 11 <=? max then [RROpt (min_opt o)]
+      if 12 + qs_len qs + opt_len o <=? max then [RROpt o]
+      else if 12 + qs_len qs + 11 <=? max then [RROpt (min_opt o)]
       else []
   end.
 
-(* header (TC set), the questions, the OPT as far as it fits *)
-Definition trunc_form (max : N) (m : msg) : msg :=
-  mkMsg (m_id m) (set_tc (m_b2 m)) (m_b3 m) (m_qs m) [] [] (trunc_ar max m).
+(* header (TC set), the questions that fit, the OPT as far as it fits *)
+Definition trunc_form (fq : bool) (max : N) (m : msg) : msg :=
+  mkMsg (m_id m) (set_tc (m_b2 m)) (m_b3 m) (kept_qs fq max (m_qs m)) [] []
+        (trunc_ar max (kept_qs fq max (m_qs m)) (m_ar m)).
 
 Lemma mlen_base id b2 b3 qs : mlen (mkMsg id b2 b3 qs [] [] []) = 12 + qs_len qs.
 Proof. rewrite mlen_spec. cbn [m_qs m_an m_ns m_ar map concat]. rewrite len_nil. lia. Qed.
@@ -71,94 +156,100 @@ Proof.
   unfold opt_len. lia.
 Qed.
 
-Lemma trunc_ar_cases max m :
-  (trunc_ar max m = [] /\ mlen (trunc_form max m) = 12 + qs_len (m_qs m)) \/
-  (exists o, first_opt (m_ar m) = Some o /\ trunc_ar max m = [RROpt o] /\
-             mlen (trunc_form max m) = 12 + qs_len (m_qs m) + opt_len o /\
-             12 + qs_len (m_qs m) + opt_len o <= max) \/
-  (exists o, first_opt (m_ar m) = Some o /\ trunc_ar max m = [RROpt (min_opt o)] /\
-             mlen (trunc_form max m) = 12 + qs_len (m_qs m) + 11 /\
-             max < 12 + qs_len (m_qs m) + opt_len o /\ 12 + qs_len (m_qs m) + 11 <= max).
+Lemma trunc_ar_cases fq max m :
+  let qs := kept_qs fq max (m_qs m) in
+  (trunc_ar max qs (m_ar m) = [] /\ mlen (trunc_form fq max m) = 12 + qs_len qs) \/
+  (exists o, first_opt (m_ar m) = Some o /\ trunc_ar max qs (m_ar m) = [RROpt o] /\
+             mlen (trunc_form fq max m) = 12 + qs_len qs + opt_len o /\
+             12 + qs_len qs + opt_len o <= max) \/
+  (exists o, first_opt (m_ar m) = Some o /\ trunc_ar max qs (m_ar m) = [RROpt (min_opt o)] /\
+             mlen (trunc_form fq max m) = 12 + qs_len qs + 11 /\
+             max < 12 + qs_len qs + opt_len o /\ 12 + qs_len qs + 11 <= max).
 Proof.
-  unfold trunc_form, trunc_ar. destruct (first_opt (m_ar m)) as [o|] eqn:E.
-  - destruct (N.leb_spec (12 + qs_len (m_qs m) + opt_len o) max) as [A|A].
+  cbv zeta. unfold trunc_form, trunc_ar. set (qs := kept_qs fq max (m_qs m)).
+  destruct (first_opt (m_ar m)) as [o|] eqn:E.
+  - destruct (N.leb_spec (12 + qs_len qs + opt_len o) max) as [A|A].
     + right; left. exists o. rewrite mlen_with_opt. auto.
-    + destruct (N.leb_spec (12 + qs_len (m_qs m) + 11) max) as [B|B].
+    + destruct (N.leb_spec (12 + qs_len qs + 11) max) as [B|B].
       * right; right. exists o. rewrite mlen_with_opt, min_opt_len. auto.
       * left. rewrite mlen_base. auto.
   - left. rewrite mlen_base. auto.
 Qed.
 
-Lemma trunc_form_le max m : mlen (trunc_form max m) <= mlen m.
+Lemma trunc_form_le fq max m : mlen (trunc_form fq max m) <= mlen m.
 Proof.
-  rewrite (mlen_spec m).
-  destruct (trunc_ar_cases max m) as [(_ & L)|[(o & E & _ & L & _)|(o & E & _ & L & _)]]; rewrite L;
+  rewrite (mlen_spec m). pose proof (kept_len (qlim fq max) 12 (m_qs m)) as K. fold (kept_qs fq max (m_qs m)) in K.
+  destruct (trunc_ar_cases fq max m) as [(_ & L)|[(o & E & _ & L & _)|(o & E & _ & L & _)]]; rewrite L;
     try (apply first_opt_len in E; pose proof (opt_len_ge o)); lia.
 Qed.
 
-(* the only way the truncated form can exceed the limit: header + questions alone do *)
-Lemma trunc_form_fits max m : 12 + qs_len (m_qs m) <= max -> mlen (trunc_form max m) <= max.
+(* the truncated form fits as soon as header + kept questions do *)
+Lemma trunc_form_fits fq max m : 12 + qs_len (kept_qs fq max (m_qs m)) <= max ->
+  mlen (trunc_form fq max m) <= max.
 Proof.
-  intros H. destruct (trunc_ar_cases max m) as [(_ & L)|[(o & _ & _ & L & F)|(o & _ & _ & L & _ & F)]]; lia.
+  intros H. destruct (trunc_ar_cases fq max m) as [(_ & L)|[(o & _ & _ & L & F)|(o & _ & _ & L & _ & F)]]; lia.
 Qed.
 
 Lemma trunc_form_over max m : max < 12 + qs_len (m_qs m) ->
-  trunc_ar max m = [] /\ mlen (trunc_form max m) = 12 + qs_len (m_qs m).
+  trunc_ar max (m_qs m) (m_ar m) = [] /\ mlen (trunc_form false max m) = 12 + qs_len (m_qs m).
 Proof.
-  intros H. destruct (trunc_ar_cases max m) as [A|[(o & _ & _ & _ & F)|(o & _ & _ & _ & _ & F)]]; [exact A|lia|lia].
+  intros H. pose proof (trunc_ar_cases false max m) as C. cbv zeta in C. rewrite kept_qs_unlimited in C.
+  destruct C as [A|[(o & _ & _ & _ & F)|(o & _ & _ & _ & _ & F)]]; [exact A|lia|lia].
 Qed.
 
 (* rebuild never fails on a message that exists (at most 65535 octets) and
-   yields the three-way truncated form *)
-Lemma rebuild_spec max m : mlen m <= 65535 ->
-  rebuild (rebuild_limit max)
+   yields the truncated form *)
+Lemma rebuild_spec fq max m : mlen m <= 65535 ->
+  rebuild fq (rebuild_limit max)
     (mkMsg (m_id m) (set_tc (m_b2 m)) (m_b3 m) (m_qs m) (m_an m) (m_ns m) (m_ar m))
-  = Ok (trunc_form max m).
+  = Ok (trunc_form fq max m).
 Proof.
   intros H. rewrite (mlen_spec m) in H.
-  unfold rebuild, rebuild_limit, trunc_form, trunc_ar, push_fails, limit_hit.
-  cbv [trunc_rebuild_has_push_limit trunc_rebuild_limit_slack push_limit_cmp_is_ge]. cbv zeta.
-  cbn [m_id m_b2 m_b3 m_qs m_ar]. rewrite mlen_base.
-  destruct (N.ltb_spec 65535 (12 + qs_len (m_qs m))) as [L|L]; [lia|].
+  unfold rebuild, rebuild_limit. cbv [trunc_rebuild_has_push_limit trunc_rebuild_limit_slack].
+  cbn [m_id m_b2 m_b3 m_qs m_ar].
+  change (if fq then Some (max + 1) else None) with (qlim fq max).
+  rewrite push_questions_ok by lia. cbn [bind]. fold (kept_qs fq max (m_qs m)).
+  pose proof (kept_len (qlim fq max) 12 (m_qs m)) as K. fold (kept_qs fq max (m_qs m)) in K.
+  unfold trunc_form, trunc_ar. set (qs := kept_qs fq max (m_qs m)) in *.
   destruct (first_opt (m_ar m)) as [o|] eqn:E; [|reflexivity].
-  apply first_opt_len in E. pose proof (opt_len_ge o) as G.
+  apply first_opt_len in E. pose proof (opt_len_ge o) as G. cbv zeta.
+  unfold push_fails, limit_hit. cbv [push_limit_cmp_is_ge].
   rewrite !mlen_with_opt, min_opt_len.
-  destruct (N.ltb_spec 65535 (12 + qs_len (m_qs m) + opt_len o)); [lia|].
-  destruct (N.ltb_spec 65535 (12 + qs_len (m_qs m) + 11)); [lia|]. cbn [orb].
-  destruct (N.leb_spec (max + 1) (12 + qs_len (m_qs m) + opt_len o));
-    destruct (N.leb_spec (12 + qs_len (m_qs m) + opt_len o) max); try lia; [|reflexivity].
-  destruct (N.leb_spec (max + 1) (12 + qs_len (m_qs m) + 11));
-    destruct (N.leb_spec (12 + qs_len (m_qs m) + 11) max); try lia; reflexivity.
+  destruct (N.ltb_spec 65535 (12 + qs_len qs + opt_len o)); [lia|].
+  destruct (N.ltb_spec 65535 (12 + qs_len qs + 11)); [lia|]. cbn [orb].
+  destruct (N.leb_spec (max + 1) (12 + qs_len qs + opt_len o));
+    destruct (N.leb_spec (12 + qs_len qs + opt_len o) max); try lia; [|reflexivity].
+  destruct (N.leb_spec (max + 1) (12 + qs_len qs + 11));
+    destruct (N.leb_spec (12 + qs_len qs + 11) max); try lia; reflexivity.
 Qed.
 
-Lemma truncate_spec fx has_opt hint m : mlen m <= 65535 ->
-  truncate_gen fx true has_opt hint m =
+Lemma truncate_spec fx fq has_opt hint m : mlen m <= 65535 ->
+  truncate_gen fx fq true has_opt hint m =
   Ok (if trunc_max_gen fx has_opt hint <? mlen m
-      then trunc_form (trunc_max_gen fx has_opt hint) m else m).
+      then trunc_form fq (trunc_max_gen fx has_opt hint) m else m).
 Proof.
   intros H. unfold truncate_gen, over_limit. cbv [trunc_cmp_is_gt].
   destruct (N.ltb_spec (trunc_max_gen fx has_opt hint) (mlen m)); [|reflexivity].
   apply rebuild_spec; exact H.
 Qed.
 
-Lemma truncate_non_udp fx has_opt hint m : truncate_gen fx false has_opt hint m = Ok m.
+Lemma truncate_non_udp fx fq has_opt hint m : truncate_gen fx fq false has_opt hint m = Ok m.
 Proof. reflexivity. Qed.
 
 (* ---- the size bound --------------------------------------------------------- *)
 
 (* postprocess does not change lengths or sections *)
-Lemma mandatory_post_shape fx rq hint m : mlen m <= 65535 ->
+Lemma mandatory_post_shape fx fq eq rq hint m : mlen m <= 65535 ->
   let max := trunc_max_gen fx (is_some (rq_client rq)) hint in
-  let m1 := if max <? mlen m then trunc_form max m else m in
-  let r := mandatory_post_gen fx true rq hint m in
-  m_id r = rq_id rq /\ m_b3 r = m_b3 m1 /\ m_qs r = m_qs m /\ m_an r = m_an m1 /\
+  let m1 := if max <? mlen m then trunc_form fq max m else m in
+  let r := mandatory_post_gen fx fq eq true rq hint m in
+  m_id r = rq_id rq /\ m_b3 r = m_b3 m1 /\ m_qs r = m_qs m1 /\ m_an r = m_an m1 /\
   m_ns r = m_ns m1 /\ m_ar r = m_ar m1 /\ mlen r = mlen m1 /\
   tc_set (m_b2 r) = tc_set (m_b2 m1).
 Proof.
   intros H. cbv zeta. unfold mandatory_post_gen. rewrite truncate_spec by exact H.
   set (m1 := if _ <? _ then _ else _).
   cbn [m_id m_b3 m_qs m_an m_ns m_ar m_b2].
-  assert (Hq : m_qs m1 = m_qs m) by (subst m1; destruct (_ <? _); reflexivity).
   repeat split; try assumption.
   unfold tc_set, set_bit_to. cbv [tc_bit].
   destruct (N.testbit (rq_b2 rq) 0).
@@ -166,59 +257,63 @@ Proof.
   - rewrite N.clearbit_neq by discriminate. rewrite N.setbit_neq by discriminate. reflexivity.
 Qed.
 
-(* not truncated: within the limit.  truncated: header + questions + what
-   trunc_ar leaves of the OPT (see trunc_ar_cases for the three ways) *)
-Lemma udp_size_cases fx rq hint m : mlen m <= 65535 ->
+(* not truncated: within the limit, nothing changed but id / QR / RD.
+   truncated: header + the questions that fit + what trunc_ar leaves of the OPT *)
+Lemma udp_size_cases fx fq eq rq hint m : mlen m <= 65535 ->
   let max := trunc_max_gen fx (is_some (rq_client rq)) hint in
-  let r := mandatory_post_gen fx true rq hint m in
+  let r := mandatory_post_gen fx fq eq true rq hint m in
   (mlen m <= max /\ mlen r = mlen m /\ tc_set (m_b2 r) = tc_set (m_b2 m) /\
-   m_an r = m_an m /\ m_ns r = m_ns m /\ m_ar r = m_ar m) \/
-  (max < mlen m /\ mlen r = mlen (trunc_form max m) /\ tc_set (m_b2 r) = true /\
-   m_an r = [] /\ m_ns r = [] /\ m_ar r = trunc_ar max m).
+   m_qs r = m_qs m /\ m_an r = m_an m /\ m_ns r = m_ns m /\ m_ar r = m_ar m) \/
+  (max < mlen m /\ mlen r = mlen (trunc_form fq max m) /\ tc_set (m_b2 r) = true /\
+   m_qs r = kept_qs fq max (m_qs m) /\ m_an r = [] /\ m_ns r = [] /\
+   m_ar r = trunc_ar max (kept_qs fq max (m_qs m)) (m_ar m)).
 Proof.
   intros H. cbv zeta.
-  destruct (mandatory_post_shape fx rq hint m H) as (_ & _ & _ & Han & Hns & Har & Hl & Htc).
+  destruct (mandatory_post_shape fx fq eq rq hint m H) as (_ & _ & Hqs & Han & Hns & Har & Hl & Htc).
   destruct (N.ltb_spec (trunc_max_gen fx (is_some (rq_client rq)) hint) (mlen m)) as [L|L].
   - right. repeat split; try assumption.
     rewrite Htc. unfold trunc_form, tc_set, set_tc. cbn [m_b2]. apply N.setbit_eq.
   - left. repeat split; assumption.
 Qed.
 
-(* the response fits the limit unless header + questions alone exceed it; in that
-   case it is exactly header + questions, TC set, no OPT *)
-Lemma udp_size_bound_gen fx rq hint m : mlen m <= 65535 ->
+(* the response fits the limit as soon as header + kept questions do: always with
+   the limit-aware question loop, otherwise unless header + questions alone exceed it *)
+Lemma udp_size_bound_gen fx fq eq rq hint m : mlen m <= 65535 ->
   let max := trunc_max_gen fx (is_some (rq_client rq)) hint in
-  let r := mandatory_post_gen fx true rq hint m in
-  (12 + qs_len (m_qs m) <= max -> mlen r <= max) /\
-  (max < 12 + qs_len (m_qs m) ->
+  let r := mandatory_post_gen fx fq eq true rq hint m in
+  ((fq = true /\ 12 <= max) \/ 12 + qs_len (m_qs m) <= max -> mlen r <= max) /\
+  (fq = false -> max < 12 + qs_len (m_qs m) ->
      mlen r = 12 + qs_len (m_qs m) /\ tc_set (m_b2 r) = true /\ m_an r = [] /\ m_ns r = [] /\ m_ar r = []).
 Proof.
   intros H. cbv zeta.
-  destruct (udp_size_cases fx rq hint m H) as [(A & B & _)|(A & B & T & Han & Hns & Har)].
-  - split; [lia|]. intros L. rewrite mlen_spec in A. lia.
+  destruct (udp_size_cases fx fq eq rq hint m H) as [(A & B & _)|(A & B & T & _ & Han & Hns & Har)].
+  - split; [lia|]. intros _ L. rewrite mlen_spec in A. lia.
   - split.
-    + intros L. rewrite B. apply trunc_form_fits. exact L.
-    + intros L. destruct (trunc_form_over _ m L) as (E1 & E2). rewrite B, Har, E1, E2. auto.
+    + intros C. rewrite B. apply trunc_form_fits. destruct C as [(-> & C)|C].
+      * apply kept_qs_fits. exact C.
+      * rewrite kept_qs_all by exact C. exact C.
+    + intros -> L. rewrite kept_qs_unlimited in Har. destruct (trunc_form_over _ m L) as (E1 & E2).
+      rewrite B, Har, E1, E2. auto.
 Qed.
 
 (* TC is set exactly when the response was over the limit (or the service set it) *)
-Lemma tc_iff_gen fx rq hint m : mlen m <= 65535 ->
-  tc_set (m_b2 (mandatory_post_gen fx true rq hint m)) = true <->
+Lemma tc_iff_gen fx fq eq rq hint m : mlen m <= 65535 ->
+  tc_set (m_b2 (mandatory_post_gen fx fq eq true rq hint m)) = true <->
   (trunc_max_gen fx (is_some (rq_client rq)) hint < mlen m \/ tc_set (m_b2 m) = true).
 Proof.
-  intros H. destruct (udp_size_cases fx rq hint m H) as [(A & _ & T & _)|(A & _ & T & _)]; rewrite T.
+  intros H. destruct (udp_size_cases fx fq eq rq hint m H) as [(A & _ & T & _)|(A & _ & T & _)]; rewrite T.
   - split; [intros; right; assumption|intros [L|L]; [lia|assumption]].
   - split; [intros; left; assumption|reflexivity].
 Qed.
 
-(* whenever records are dropped TC is set *)
-Lemma dropped_implies_tc fx rq hint m : mlen m <= 65535 ->
-  let r := mandatory_post_gen fx true rq hint m in
-  (m_an r <> m_an m \/ m_ns r <> m_ns m \/ m_ar r <> m_ar m) -> tc_set (m_b2 r) = true.
+(* whenever anything is dropped TC is set *)
+Lemma dropped_implies_tc fx fq eq rq hint m : mlen m <= 65535 ->
+  let r := mandatory_post_gen fx fq eq true rq hint m in
+  (m_qs r <> m_qs m \/ m_an r <> m_an m \/ m_ns r <> m_ns m \/ m_ar r <> m_ar m) -> tc_set (m_b2 r) = true.
 Proof.
   intros H. cbv zeta. intros D.
-  destruct (udp_size_cases fx rq hint m H) as [(_ & _ & _ & A1 & A2 & A3)|(_ & _ & T & _)]; [|exact T].
-  rewrite A1, A2, A3 in D. tauto.
+  destruct (udp_size_cases fx fq eq rq hint m H) as [(_ & _ & _ & A0 & A1 & A2 & A3)|(_ & _ & T & _)]; [|exact T].
+  rewrite A0, A1, A2, A3 in D. tauto.
 Qed.
 
 (* ---- one well-formed question: the bound holds without proviso ---------------- *)
@@ -255,6 +350,23 @@ Proof.
   - rewrite mlen_spec in *. cbn [m_qs m_an m_ns m_ar]. pose proof (filter_len (m_ar m)). lia.
 Qed.
 
+(* edns_post never makes a response with an OPT longer, and one without at most 11 longer *)
+Lemma edns_post_le b m : mlen (edns_post b m) <= mlen m + 11.
+Proof.
+  unfold edns_post. destruct b; cbn [negb].
+  - destruct (first_opt (m_ar m)); [lia|]. destruct (65535 <? mlen m + 11); [lia|].
+    rewrite !mlen_spec. cbn [m_qs m_an m_ns m_ar]. rewrite map_app, concat_app, len_app.
+    cbn [map concat wire_rr]. rewrite app_nil_r. change (len (wire_opt empty_opt)) with 11. lia.
+  - rewrite !mlen_spec. cbn [m_qs m_an m_ns m_ar]. pose proof (filter_len (m_ar m)). lia.
+Qed.
+
+Lemma edns_post_le_opt b m o : first_opt (m_ar m) = Some o -> mlen (edns_post b m) <= mlen m.
+Proof.
+  intros E. unfold edns_post. destruct b; cbn [negb].
+  - rewrite E. lia.
+  - rewrite !mlen_spec. cbn [m_qs m_an m_ns m_ar]. pose proof (filter_len (m_ar m)). lia.
+Qed.
+
 Lemma trunc_max_ge fx b h : hint_ok h -> 512 <= trunc_max_gen fx b h.
 Proof.
   intros H. unfold trunc_max_gen. cbv [min_resp_len]. destruct (fx && negb b); [lia|].
@@ -267,27 +379,29 @@ Proof.
   destruct client as [c|]; [|exact Hk]. destruct hint as [x|]; simpl in *; lia.
 Qed.
 
-(* the whole UDP path: the datagram never exceeds the negotiated limit when the
-   response carries one well-formed question, with or without EDNS, whatever the
-   service produced (large OPT included) *)
-Lemma udp_size_bound_one_question fx rq cfg m r q :
-  m_qs m = [q] -> wf_q q -> hint_ok cfg -> mlen m <= 65535 ->
-  udp_response_gen fx rq cfg m = Ok r ->
+(* the service path: the datagram never exceeds the negotiated limit when the
+   response carries one well-formed question - or, with the limit-aware question
+   loop, whatever it carries *)
+Lemma udp_size_bound_service fx fq eq rq cfg m r :
+  (fq = true \/ exists q, m_qs m = [q] /\ wf_q q) -> hint_ok cfg -> mlen m <= 65535 ->
+  udp_response_gen fx fq eq rq cfg m = Ok r ->
   exists lim, udp_limit_gen fx (rq_client rq) cfg = Ok lim /\ mlen r <= lim.
 Proof.
-  intros Hq Hwf Hk Hl. unfold udp_response_gen, udp_limit_gen.
+  intros Hq Hk Hl. unfold udp_response_gen, udp_limit_gen.
   destruct (hint_after_edns (rq_client rq) cfg) as [h| | |] eqn:E; try discriminate.
   cbn [bind]. intros R; inversion R; subst r; clear R.
   eexists; split; [reflexivity|].
   set (m' := edns_post (is_some (rq_client rq)) m).
   assert (Hl' : mlen m' <= 65535) by (apply edns_post_len; exact Hl).
-  destruct (udp_size_bound_gen fx rq h m' Hl') as (B & _). apply B.
-  subst m'. rewrite edns_post_qs, Hq. unfold qs_len. cbn [map concat]. rewrite app_nil_r.
-  pose proof (wire_q_len q Hwf). pose proof (trunc_max_ge fx (is_some (rq_client rq)) h (hint_ok_after _ _ _ Hk E)). lia.
+  pose proof (trunc_max_ge fx (is_some (rq_client rq)) h (hint_ok_after _ _ _ Hk E)) as G.
+  destruct (udp_size_bound_gen fx fq eq rq h m' Hl') as (B & _). apply B.
+  destruct Hq as [->|(q & Hq & Hwf)]; [left; split; [reflexivity|lia]|right].
+  subst m'. rewrite edns_post_qs, Hq. rewrite qs_len_cons, qs_len_nil.
+  pose proof (wire_q_len q Hwf). lia.
 Qed.
 
-(* the fallback is live: the response that used to leave as 636 octets against
-   a limit of 512 now keeps an OPT without options *)
+(* the fallback is live: a response with 604 octets of OPT options against a
+   limit of 512 keeps an OPT without options *)
 Definition big_opt_request : request := mk_request 4352 0 [3] 1 (Some 512).
 Definition big_opt_response : msg := mk_response big_opt_request 128 0 2 100 0 11 (Some (1232, 604)).
 
@@ -295,20 +409,6 @@ Example big_opt_now_minimal :
   exists r, udp_response big_opt_request (Some 1232) big_opt_response = Ok r /\
     mlen r = 32 /\ tc_set (m_b2 r) = true /\ m_ar r = [RROpt (mkOpt 1232 0 [])].
 Proof. eexists. split; [vm_compute; reflexivity|]. repeat split; vm_compute; reflexivity. Qed.
-
-(* what remains: header + questions alone over the limit (a response echoing
-   very many questions); nothing can be dropped from it *)
-Definition many_q_request : request := mkReq 7 0 (repeat (mkQ [[97]] 1 1) 100) None.
-Definition many_q_response : msg := mkMsg 7 128 1 (repeat (mkQ [[97]] 1 1) 100) [] [] [].
-
-Lemma udp_size_bound_proviso_needed :
-  exists rq cfg m r, mlen m <= 65535 /\ udp_response rq cfg m = Ok r /\
-    udp_limit (rq_client rq) cfg = Ok 512 /\ tc_set (m_b2 r) = true /\ mlen r = 712.
-Proof.
-  exists many_q_request, None, many_q_response.
-  eexists. split; [vm_compute; discriminate|]. split; [vm_compute; reflexivity|].
-  split; [reflexivity|]. split; vm_compute; reflexivity.
-Qed.
 
 Example udp_response_ex :
   exists r, udp_response (mk_request 9 1 [7; 4] 16 (Some 4096)) (Some 1232)
@@ -318,17 +418,29 @@ Proof. eexists. split; [vm_compute; reflexivity|]. split; vm_compute; reflexivit
 
 (* ---- id and question ---------------------------------------------------------- *)
 
-Lemma id_question_echoed fx rq cfg m r : mlen m <= 65535 ->
-  udp_response_gen fx rq cfg m = Ok r -> m_id r = rq_id rq /\ m_qs r = m_qs m.
+(* the id is the request's; the questions are the response's, all of them when
+   header + questions fit the limit, else a prefix *)
+Lemma id_question_echoed fx fq eq rq cfg m r : mlen m <= 65535 ->
+  udp_response_gen fx fq eq rq cfg m = Ok r ->
+  m_id r = rq_id rq /\ (exists rest, m_qs m = m_qs r ++ rest) /\
+  (fq = false -> m_qs r = m_qs m) /\
+  (forall q, hint_ok cfg -> m_qs m = [q] -> wf_q q -> m_qs r = [q]).
 Proof.
-  intros H. unfold udp_response_gen. destruct (hint_after_edns (rq_client rq) cfg) as [h| | |]; try discriminate.
-  cbn [bind]. intros E; inversion E; subst r; clear E.
-  destruct (mandatory_post_shape fx rq h (edns_post (is_some (rq_client rq)) m)
-              (edns_post_len _ m H)) as (A & _ & B & _).
-  split; [exact A|]. rewrite B. apply edns_post_qs.
+  intros H. unfold udp_response_gen. destruct (hint_after_edns (rq_client rq) cfg) as [h| | |] eqn:E; try discriminate.
+  cbn [bind]. intros R; inversion R; subst r; clear R.
+  set (m' := edns_post (is_some (rq_client rq)) m).
+  assert (Hl' : mlen m' <= 65535) by (apply edns_post_len; exact H).
+  destruct (mandatory_post_shape fx fq eq rq h m' Hl') as (A & _ & _).
+  assert (Q : m_qs m' = m_qs m) by apply edns_post_qs.
+  destruct (udp_size_cases fx fq eq rq h m' Hl') as [(_ & _ & _ & B & _)|(_ & _ & _ & B & _)]; rewrite B, Q.
+  - split; [exact A|]. split; [exists []; rewrite app_nil_r; reflexivity|]. split; [reflexivity|]. intros q _ -> _. reflexivity.
+  - split; [exact A|]. split; [apply kept_prefix|]. split.
+    + intros ->. apply kept_qs_unlimited.
+    + intros q Hk -> Hw. apply kept_qs_all. rewrite qs_len_cons, qs_len_nil.
+      pose proof (wire_q_len q Hw). pose proof (trunc_max_ge fx (is_some (rq_client rq)) h (hint_ok_after _ _ _ Hk E)). lia.
 Qed.
 
-Lemma udp_response_total fx rq cfg m : exists r, udp_response_gen fx rq cfg m = Ok r.
+Lemma udp_response_total fx fq eq rq cfg m : exists r, udp_response_gen fx fq eq rq cfg m = Ok r.
 Proof.
   unfold udp_response_gen. rewrite hint_after_edns_spec. cbn [bind]. eexists; reflexivity.
 Qed.
@@ -397,24 +509,28 @@ Qed.
 
 (* TC set by truncation: the datagram is header + questions (+ OPT, possibly
    without its options) and parses back *)
-Lemma truncated_wellformed_gen fx rq hint m : mlen m <= 65535 -> rq_id rq < 65536 -> wf_resp m ->
+Lemma truncated_wellformed_gen fx fq eq rq hint m : mlen m <= 65535 -> rq_id rq < 65536 -> wf_resp m ->
   let max := trunc_max_gen fx (is_some (rq_client rq)) hint in
   max < mlen m ->
-  let r := mandatory_post_gen fx true rq hint m in
-  tc_set (m_b2 r) = true /\ m_an r = [] /\ m_ns r = [] /\ m_ar r = trunc_ar max m /\
-  m_qs r = m_qs m /\ parse_min (wire_msg r) = Some r.
+  let r := mandatory_post_gen fx fq eq true rq hint m in
+  tc_set (m_b2 r) = true /\ m_an r = [] /\ m_ns r = [] /\
+  m_qs r = kept_qs fq max (m_qs m) /\ m_ar r = trunc_ar max (m_qs r) (m_ar m) /\
+  parse_min (wire_msg r) = Some r.
 Proof.
   intros H Hid (Hq & Hc & Ho). cbv zeta. intros L.
-  destruct (udp_size_cases fx rq hint m H) as [(A & _)|(_ & _ & T & Han & Hns & Har)]; [lia|].
-  destruct (mandatory_post_shape fx rq hint m H) as (Hi & _ & Hqs & _).
-  repeat split; try assumption.
+  destruct (udp_size_cases fx fq eq rq hint m H) as [(A & _)|(_ & _ & T & Hqs & Han & Hns & Har)]; [lia|].
+  destruct (mandatory_post_shape fx fq eq rq hint m H) as (Hi & _).
+  repeat split; try assumption; [rewrite Hqs; exact Har|].
   apply parse_min_wire; [|reflexivity].
   unfold wf_min. rewrite Hi, Hqs, Han, Hns, Har. repeat split; try assumption.
-  destruct (trunc_ar_cases (trunc_max_gen fx (is_some (rq_client rq)) hint) m)
-    as [(E & _)|[(o & F & E & _)|(o & F & E & _)]]; rewrite E.
-  - left; reflexivity.
-  - right. exists o. split; [reflexivity|]. apply (first_opt_in_wf m o Ho F).
-  - right. exists (min_opt o). split; [reflexivity|]. apply (first_opt_in_wf m o Ho F).
+  - apply kept_forall. exact Hq.
+  - pose proof (kept_cnt (qlim fq (trunc_max_gen fx (is_some (rq_client rq)) hint)) 12 (m_qs m)) as K.
+    unfold kept_qs. lia.
+  - pose proof (trunc_ar_cases fq (trunc_max_gen fx (is_some (rq_client rq)) hint) m) as C. cbv zeta in C.
+    destruct C as [(E & _)|[(o & F & E & _)|(o & F & E & _)]]; rewrite E.
+    + left; reflexivity.
+    + right. exists o. split; [reflexivity|]. apply (first_opt_in_wf m o Ho F).
+    + right. exists (min_opt o). split; [reflexivity|]. apply (first_opt_in_wf m o Ho F).
 Qed.
 
 Example parse_min_ex :
